@@ -4,6 +4,7 @@ Reads one case per line on stdin, prints `<stream> <id> MODEL <observation>` per
 Usage: `vmodel [--fixes <digits 0/1: f1 f2 f3 f4 f5 f2b f8 f10 f14 f12>]`.
 -/
 import Vibrato.Driver.Tok
+import Vibrato.Driver.Tok16
 import Vibrato.Driver.Corpus
 import Vibrato.Driver.Rewriter
 import Vibrato.Driver.Image
@@ -36,6 +37,7 @@ def stepLine (fx : Fixes) (st : DState) (line : String) : DState × String :=
       | none => st
     (st', s!"def {name} MODEL {obs}")
   | "tok" :: id :: rest => (st, s!"tok {id} MODEL {Tok.handleTokP fx st.dicts rest}")
+  | "tok16" :: id :: rest => (st, s!"tok16 {id} MODEL {Tok16.handle rest}")
   | "rewrite" :: id :: rest =>
     let inp := input rest
     let impl := " ".intercalate (rest.dropWhile (· ≠ "IMPL") |>.drop 1 |>.takeWhile (· ≠ "##"))
